@@ -149,7 +149,7 @@ class Path:
             q.pc.append(extra)
         q.axioms = list(self.axioms)
         q.env, q.types = dict(self.env), self.types
-        q.stack = list(self.stack)
+        q.stack = [(dict(e), t) for e, t in self.stack]
         q.heap = {k: dict(v) for k, v in self.heap.items()}
         q.mem, q.rsize = dict(self.mem), dict(self.rsize)
         q.opq = dict(self.opq)
@@ -1626,6 +1626,8 @@ def _b_len(eng, p, args, kw, node):
         return [(p, PyI(v.n))]
     if isinstance(v, Str):
         return [(p, PyI(len(v.s)))]
+    if isinstance(v, BytesV):
+        return [(p, PyI(v.seq.n))]
     if isinstance(v, Custom):
         return [(p, v.h.len(eng, p))]
     if isinstance(v, Opaque):
